@@ -177,7 +177,8 @@ void Context::parsingEnd()
   while (_backed_symbols.begin() != it)
   {
     --it;
-    if (it->major() == Type::ROWTYPE)
+    /* a tuple symbol typed from a value has no declaration: restore its type as is */
+    if (it->major() == Type::ROWTYPE && !it->tuple_decl().empty())
       _storage_pool[it->id()].symbol->upgrade(it->tuple_decl(), it->level());
     else
       _storage_pool[it->id()].symbol->upgrade(*it);
